@@ -107,6 +107,8 @@ func runC02(p *core.Program, r *core.Report) {
 	}
 	r.Rule("C02.verbatim", "a value decoder stores what it read: no decoded text is passed through a text-transforming function on its way into the value", 15)
 	verbatimRule(p, r, "C02.verbatim", []string{"lang/value"})
+	r.Rule("C02.whole-field", "a value writes all of what it holds: no stream write of lang/value emits a prefix of a field cut to a constant or to what a fitting helper answers", 20)
+	c02WholeField(p, r, "C02.whole-field", "lang/value")
 	r.Rule("C02.width", "a payload written without a length and read back with a fixed one has that width wherever it is stored (Write emits exactly what Read consumes)", 1)
 	rawWidthInvariant(p, r, "C02.width", "lang/value")
 	r.Rule("C02.in-place", "decoders store what they read into the container itself (no decode into a range copy, no append after a full-length make)", 10)
@@ -276,4 +278,80 @@ func joinS(s []string) string {
 		out += x
 	}
 	return out + "]"
+}
+
+// c02WholeField: a value writes all of what it holds. A stream write in lang/value whose argument is
+// a prefix of a field of the value (`this.Val[:n]`) with n a constant or the answer of a function of
+// the module (a "how much fits" helper) leaves the elements beyond n unwritten: the value that is read
+// back is shorter than the one that was written, silently.
+func c02WholeField(p *core.Program, r *core.Report, rule string, rel string) {
+	pk := p.Pkg(rel)
+	if pk == nil {
+		r.Undec(rule, rel, "-", "package not found")
+		return
+	}
+	x := wire.NewExtractor(p)
+	for _, fi := range p.Funcs {
+		if fi.Pkg != pk || fi.Decl.Body == nil || fi.Decl.Recv == nil {
+			continue
+		}
+		outs, _ := x.StreamParams(fi)
+		if len(outs) == 0 {
+			continue
+		}
+		info := fi.Pkg.TypesInfo
+		rn := recvName(fi)
+		bad := ""
+		n := 0
+		ast.Inspect(fi.Decl.Body, func(m ast.Node) bool {
+			call, ok := m.(*ast.CallExpr)
+			if !ok {
+				return true
+			}
+			sel, ok := ast.Unparen(call.Fun).(*ast.SelectorExpr)
+			if !ok || !strings.HasPrefix(sel.Sel.Name, "Write") {
+				return true
+			}
+			if tv, ok := info.Types[sel.X]; !ok || !x.IsStream(tv.Type) {
+				return true
+			}
+			for _, a := range call.Args {
+				se, ok := ast.Unparen(a).(*ast.SliceExpr)
+				if !ok || se.High == nil {
+					continue
+				}
+				fsel, ok := ast.Unparen(se.X).(*ast.SelectorExpr)
+				if !ok {
+					continue
+				}
+				if id, ok := ast.Unparen(fsel.X).(*ast.Ident); !ok || id.Name != rn {
+					continue
+				}
+				n++
+				hi := se.High
+				if id, ok := ast.Unparen(hi).(*ast.Ident); ok {
+					if d := singleDefIn(info, fi.Decl.Body, info.ObjectOf(id)); d != nil {
+						hi = d
+					}
+				}
+				if tv, ok := info.Types[hi]; ok && tv.Value != nil {
+					bad = "writes " + types.ExprString(a) + ": a prefix of constant length"
+				}
+				ast.Inspect(hi, func(k ast.Node) bool {
+					if c, ok := k.(*ast.CallExpr); ok {
+						if fn := calleeFunc(info, c); fn != nil && fn.Pkg() != nil && strings.HasPrefix(fn.Pkg().Path(), core.ModPath) {
+							bad = "writes " + types.ExprString(a) + ": a prefix whose length " + fn.Name() + " decides"
+						}
+					}
+					return true
+				})
+			}
+			return true
+		})
+		if len(outs) > 0 && (n > 0 || bad != "") {
+			r.Check(bad == "", rule, core.FuncName(fi.Obj)+" whole field", p.Pos(fi.Decl.Pos()), "prefixes written are bounded by the field's own length", bad+": the elements beyond it are never written and the value read back is shorter than the value written")
+		} else {
+			r.OK(rule, core.FuncName(fi.Obj)+" whole field", p.Pos(fi.Decl.Pos()), "fields are written whole")
+		}
+	}
 }
